@@ -86,6 +86,7 @@ def loop_overwrites(fn):
 
 def run(ctx, rep):
     m = ctx.m
+    r6(ctx, rep)
     R1 = rep.rule('C16.R1', 'loop-overwrite lint: no accumulator attribute is plainly assigned inside a loop')
     ft = ast.parse(FIXTURE)
     fhits = [tgt for st, tgt in loop_overwrites(ft.body[0])]
@@ -413,3 +414,22 @@ def fold_listeners(ctx, rep, R2, ab, ac, ana, atk, ara):
         rep.instance(R2, ok=ok, nontrivial=('fold-after_rule_apply', has_entry))
         if not ok:
             rep.finding(R2, f'C16.R2/after_rule_apply/fold/{has_entry}', m.loc(TAB, ara), 'after_rule_apply', f'history {history}, flag {tab.flag}, result {r!r}')
+
+
+def r6(ctx, rep):
+    "trunk content: premises in order, then the conclusion negated (by the Negation operator, `~`) or undesignated"
+    from .. import trunk
+    m = ctx.m
+    R6 = rep.rule('C16.R6', 'trunk (build_trunk folded for every logic): exactly the premises in order, then the conclusion under Negation / '
+                            'undesignated, all at the root world')
+    n = 0
+    for lg in ctx.lgs:
+        owner, fn, nodes = trunk.trunk_of(m, lg.systemcls, lg.modal)
+        fam = trunk.classify(nodes, lg.modal)
+        n += 1
+        rep.instance(R6, ok=fam is not None, nontrivial=lg.name)
+        rep.consult(m.floc(fn))
+        if fam is None:
+            rep.finding(R6, f'C16.R6/{lg.name}/trunk', m.floc(fn), f'{lg.name}.System.build_trunk',
+                        f'trunk for premises P1,P2 and conclusion C is {nodes}: not (P1+,P2+,C-) nor (P1,P2,~C) at the root world')
+    rep.floor('C16.R6', 'logics', n, 57)
